@@ -393,19 +393,48 @@ impl<'arena> PrettyFormatter<'arena> {
     }
 
     fn with_leading_comments(&self, entity: EntityId, document: RcDoc<'arena>) -> RcDoc<'arena> {
-        self.with_comments(self.arena.trivia.leading_comments(entity), document)
+        self.with_comments(
+            self.arena.trivia.leading_comments(entity),
+            self.starts_own_line(entity),
+            document,
+        )
     }
 
     fn with_before_arm_comments(&self, entity: EntityId, document: RcDoc<'arena>) -> RcDoc<'arena> {
-        self.with_comments(self.arena.trivia.before_arm_comments(entity), document)
+        self.with_comments(self.arena.trivia.before_arm_comments(entity), false, document)
     }
 
+    /// Whether an entity renders as a block construct that must start a line
+    /// (see [`Self::block_like`]).
+    fn starts_own_line(&self, entity: EntityId) -> bool {
+        let EntityId::Term(term) = entity else {
+            return false;
+        };
+        matches!(
+            &self.arena.terms[&term],
+            Term::Do(_)
+                | Term::Let(_)
+                | Term::Param(_)
+                | Term::ContextBind(_)
+                | Term::Data(_)
+                | Term::CoData(_)
+                | Term::Match(_)
+                | Term::CoMatch(_)
+        )
+    }
+
+    /// `before_block`: the commented construct must start a line, so a comment
+    /// written on its line moves above it instead of leaving it mid-line.
     fn with_comments(
-        &self, comments: &'arena [LeadingComment], document: RcDoc<'arena>,
+        &self, comments: &'arena [LeadingComment], before_block: bool, document: RcDoc<'arena>,
     ) -> RcDoc<'arena> {
         comments
             .iter()
             .fold(RcDoc::nil(), |prefix, comment| {
+                let separation = match comment.separation_after() {
+                    | LineSeparation::SameLine if before_block => LineSeparation::NextLine,
+                    | separation => separation,
+                };
                 prefix
                     .append(if comment.comment().as_text().is_some() {
                         self.ensure_line_start()
@@ -413,7 +442,7 @@ impl<'arena> PrettyFormatter<'arena> {
                         RcDoc::nil()
                     })
                     .append(self.comment(comment.comment()))
-                    .append(self.line_separation(comment.separation_after()))
+                    .append(self.line_separation(separation))
             })
             .append(document)
     }
@@ -1758,9 +1787,9 @@ impl<'arena> PrettyFormatter<'arena> {
             .manifest_parameter_view(parameter.binder)
             .map(|view| self.manifest_parameter(view, parameter.binder))
             .unwrap_or_else(|| match self.arena.pats[&parameter.binder] {
-                | Pattern::Ann(_) | Pattern::Manifest(_) | Pattern::Paren(_) => {
-                    self.pattern(parameter.binder)
-                }
+                | Pattern::Ann(_) | Pattern::Manifest(_) => self.pattern(parameter.binder),
+                // A parenthesized binder needs the parameter's own delimiters
+                // around it: `exists ((a, b)) . T` is not `exists (a, b) . T`.
                 | _ => self.delimited(
                     None,
                     "(",
